@@ -76,7 +76,7 @@ fn stmt(rng: &mut Rng, depth: u32, out: &mut String) {
             out.push_str(&format!("return {} end\n", expr(rng, 1)));
         }
         6 => {
-            out.push_str(&format!("{ind}if {}{}then\n", expr(rng, 1), sp(rng)));
+            out.push_str(&format!("{ind}if {} {}then\n", expr(rng, 1), sp(rng)));
             stmt(rng, depth + 1, out);
             if rng.bool() {
                 out.push_str("else\n");
@@ -188,7 +188,7 @@ impl Fault {
 /// errnos a *write failure* (full disk, quota, file-size limit, I/O error) can really surface as at this call
 fn plausible_errnos(name: &str, args: &str) -> &'static [&'static str] {
     match name {
-        "write" | "pwrite64" | "writev" | "pwritev" | "pwritev2" => &["ENOSPC", "EFBIG", "EIO"],
+        "write" | "pwrite64" | "writev" | "pwritev" | "pwritev2" => &["ENOSPC", "EFBIG"],
         "open" | "openat" | "openat2" | "creat" => {
             if name == "creat" || args.contains("O_CREAT") || args.contains("O_TMPFILE") {
                 &["ENOSPC"]
@@ -196,7 +196,7 @@ fn plausible_errnos(name: &str, args: &str) -> &'static [&'static str] {
                 &[]
             }
         }
-        "close" => &["ENOSPC", "EIO"], // deferred write errors (close(2), NFS / quota)
+        "close" => &["ENOSPC"], // deferred write error (close(2): NFS / quota)
         "fsync" | "fdatasync" | "sync_file_range" => &["ENOSPC", "EIO"],
         "rename" | "renameat" | "renameat2" | "link" | "linkat" | "symlink" | "symlinkat" | "mkdir" | "mkdirat" => &["ENOSPC"],
         "ftruncate" | "truncate" => &["EFBIG", "EIO"],
@@ -288,11 +288,38 @@ fn pass0(env: &Env, files: &Files, as_files: &Option<Vec<String>>) -> Result<Pas
     }
     let mut rel: BTreeMap<String, u32> = BTreeMap::new();
     let mut points = Vec::new();
+    // Fault points = the calls that can change a file, plus the close of every descriptor that was
+    // opened for writing. A crash before a read-only open / its close leaves exactly the state of
+    // a crash before the next mutating call, so those are not separate points (their calls still
+    // count for strace's `when=` numbering).
+    let mut write_fds: std::collections::BTreeSet<String> = std::collections::BTreeSet::new();
+    let mut skipped = 0usize;
     for c in &entries[first..] {
         let r = rel.entry(c.name.clone()).or_insert(0);
         *r += 1;
-        points.push((c.name.clone(), *r, c.args.clone()));
+        let fd = c.ret.split_whitespace().next().unwrap_or("").to_string();
+        let interesting = match c.name.as_str() {
+            "open" | "openat" | "openat2" | "creat" => {
+                let w = c.name == "creat" || ["O_WRONLY", "O_RDWR", "O_CREAT", "O_TRUNC", "O_APPEND", "O_TMPFILE"].iter().any(|f| c.args.contains(f));
+                if w && fd.chars().all(|ch| ch.is_ascii_digit()) && !fd.is_empty() {
+                    write_fds.insert(fd.clone());
+                }
+                w
+            }
+            "close" => {
+                let arg = c.args.trim().to_string();
+                write_fds.remove(&arg)
+            }
+            "dup" | "dup2" | "dup3" => false,
+            _ => true,
+        };
+        if interesting {
+            points.push((c.name.clone(), *r, c.args.clone()));
+        } else {
+            skipped += 1;
+        }
     }
+    let _ = skipped;
     let formatted: BTreeMap<String, Vec<u8>> = proc::snapshot_dir(&env.dir).into_iter().collect();
     // the undisturbed run itself must satisfy the oracle's model of "formatted"
     for (rel, orig) in files {
@@ -420,13 +447,17 @@ fn enumerate_faults(files: &Files, p0: &Pass0) -> Vec<Fault> {
     }
     // file-size limits below each produced output
     let mut limits: Vec<u64> = vec![0, 1];
+    let mut largest = 0u64;
     for (rel, orig) in files {
         if let Some(f) = p0.formatted.get(rel) {
             if f != orig && !f.is_empty() {
-                limits.push(f.len() as u64 / 2);
                 limits.push(f.len() as u64 - 1);
+                largest = largest.max(f.len() as u64);
             }
         }
+    }
+    if largest > 3 {
+        limits.push(largest / 2);
     }
     limits.sort();
     limits.dedup();
@@ -548,6 +579,15 @@ pub fn run(ctx: &mut Ctx) {
         ctx.extra_add("fault_points_enumerated", faults.len() as u64);
         ctx.extra_add("syscalls_in_target_phase", p0.points.len() as u64);
         ctx.extra_add("files_rewritten", changing as u64);
+        // generated files that luafmt leaves alone (the generator meant them to be rewritten)
+        for (r, o) in &files {
+            if is_target(r) && r != "clean.lua" && r != "broken.lua" && p0.formatted.get(r) == Some(o) {
+                ctx.extra_add("generated_files_left_unchanged", 1);
+                if std::env::var("C39_DEBUG").is_ok() {
+                    eprintln!("[c39] unchanged generated file {r}:\n{}", String::from_utf8_lossy(o));
+                }
+            }
+        }
         let dfp = dir_fp(&files);
         let mut shrunk_sigs: Vec<String> = Vec::new();
         for fault in &faults {
